@@ -7,6 +7,7 @@ import (
 	"path/filepath"
 	"sort"
 	"strings"
+	"time"
 )
 
 type Report struct {
@@ -33,6 +34,9 @@ type Report struct {
 	baseline    map[string]bool
 	missing     []string
 	known       []Finding
+	// replayUntil: no new replay attempt is started after this instant (the
+	// verdict does not depend on replays; they only add the failing input)
+	replayUntil time.Time
 }
 
 type failure struct {
@@ -108,6 +112,10 @@ func (r *Report) finish(verif string, writeBase bool, wall float64, writeEvidenc
 	// replay + verdict lines
 	repDir := filepath.Join(verif, "replays", r.prop)
 	os.RemoveAll(repDir)
+	r.replayUntil = time.Now().Add(4 * time.Minute)
+	if r.tier == "thorough" {
+		r.replayUntil = time.Now().Add(20 * time.Minute)
+	}
 	violations := 0
 	for _, f := range r.failed {
 		for i := range r.known {
